@@ -39,7 +39,9 @@ RULE = ("per importer (ch.swisscard2, ch.viac, ch.cumulus, ch.postfinance, ch.sw
         "prepended, is accepted by `knut print` (which also runs the balance assertions) and re-printed byte-identically; (b) the "
         "multiset of (date, change of the import account per commodity) over the printed transactions equals the generator's own "
         "account of the rows (per expected transaction: a wise conversion row stands for two, a swissquote exchange pair for one), "
-        "the multiset of balance lines equals the balances the statement carries, and nothing else is printed.  Damaged statements "
+        "the multiset of balance lines equals the balances the statement carries, and nothing else is printed; (c) interactivebrokers: "
+        "the extracted statement-level specification Spec/ImpSpecIB.v accepts the records (ibs_wf) and ibs_statement_output of the "
+        "records is byte-identical to the binary's stdout.  Damaged statements "
         "(date, date format, amount, column count, currency/direction, account flag invalid or omitted) are compared with the model "
         "only.")
 TRUSTED_BASE = [
@@ -72,27 +74,38 @@ ASSUMPTIONS = [
     "rows come in complete pairs",
 ]
 TECHNIQUE = ("Coq proofs over hand-written Gallina models of all eleven importers (per-importer row-to-transaction theorems against "
-             "Spec/ImpSpecA.v and Spec/ImpSpecB.v; interactivebrokers: per-row theorems only) + byte-exact model/implementation correspondence on generated statements + executable "
+             "Spec/ImpSpecA.v, Spec/ImpSpecB.v and, for interactivebrokers at statement level, Spec/ImpSpecIB.v) + byte-exact model/implementation correspondence on generated statements + executable "
              "specification (re-print through knut's own parser, independent row facts) evaluated on the binary's output")
 LEVEL_TEXT = ("C13_<importer>_faithful and C13_<importer>_end_to_end (Coq): for every list of well-formed rows the importer model emits exactly one "
               "single-booking transaction per booking row, in order, on the row's date, whose effect on the import account is "
               "the row's signed amount in the row's currency (viac: one price per non-zero daily value), and nothing else; "
               "C13_print_balanced, C13_description_verbatim and the byte-level witness C13_quote_breaks_header for the "
               "shared back half.  Deviations of the code from the property's wording are stated as the relation the code "
-              "implements and listed as findings.  Group B (Properties/C13b.v): C13_revolut2_faithful (one transaction per completed row, "
+              "implements and listed as findings.  Group B (Properties/C13b.v): C13b_print_balanced / C13b_journal_balanced (what a group B importer hands to the printer consists of posting pairs), C13_revolut2_faithful (one transaction per completed row, "
               "Amount - Fee; one assertion per day and currency with the last row's Balance), C13_revolut_faithful (one transaction per row, "
               "exchange rows in two commodities; an assertion at every change of date), C13_wise_faithful (zero, one or two transactions per "
               "row as ws_entries lists them) with C13_wise_incoming_conversion_refuted (IN with conversion credits the target amount twice), "
               "C13_swissquote_faithful (one transaction per row except one per pair of exchange rows) with "
-              "C13_swissquote_open_exchange_dropped, and C13_interactivebrokers_{deposit,dividend,interest,withholding,stock}_row_partial "
-              "(what one record yields; the statement-level theorem is not proved): in each the transactions are dated on the row date, "
+              "C13_swissquote_open_exchange_dropped, each with C13_<importer>_end_to_end (all account flags valid: the command succeeds and prints "
+              "journal.Print of exactly those directives), and C13_interactivebrokers_faithful / _end_to_end / _stdout (for every well-formed activity "
+              "statement - every record well-formed, Forex trades after the Base Currency record, balance rows after the Period record - the "
+              "importer emits, in record order, exactly one transaction per booking row (stock and Forex trades with their commission "
+              "bookings, deposits/withdrawals, dividends, withholding tax, interest), exactly one balance assertion, dated on the end of the "
+              "period, per Open Positions/Summary and Forex Balances/Forex row, and nothing for any other record; the amounts are the row's "
+              "amounts AS THE CODE ROUNDS THEM - quantity, proceeds, Forex commission, deposit amount and cash balance to two places, half "
+              "away from zero (C13_interactivebrokers_rounding), which is the row's amount when it has at most two decimals "
+              "(C13_interactivebrokers_two_places_exact) and otherwise the known finding C13-ib-rounding; _stdout is the executable form "
+              "the check evaluates on the binary's output) with the row theorems C13_interactivebrokers_{deposit,dividend,interest,"
+              "withholding,stock}_row (one record in any importer state): in each the transactions are dated on the row date, "
               "consist of exactly the row's bookings and change the import account by exactly the row's signed amounts (less fee) in "
               "every commodity.")
 LEVEL_NOTE = ("Trusted: kernel, extraction, harness, Go's csv/json/charset readers (observed, not modelled). The tie between "
               "model and code is sampled (quick: 100 well-formed + 34 damaged statements per importer). The parser half of "
               "the round trip is checked on the binary (knut print), not proved (parser model: C07/C09).  Group B: 100 well-formed + "
-              "34 damaged statements per importer in the quick tier; interactivebrokers has no statement-level theorem (Forex trades, "
-              "assertions and ignored records are covered by the byte-exact correspondence only).  Findings: the wise double credit of a converted incoming payment was "
+              "34 damaged statements per importer in the quick tier; for interactivebrokers the statement-level specification is also run: every "
+              "generated well-formed statement must satisfy ibs_wf (the theorem's hypothesis) and the binary's stdout must equal "
+              "ibs_statement_output of its records; every importer now has a _faithful theorem (importer function) and an _end_to_end theorem "
+              "(valid account flags to journal.Print on stdout; viac also with --from: C13_viac_end_to_end_from).  Findings: the wise double credit of a converted incoming payment was "
               "repaired in /repo (0ec20cd; the model follows); interactivebrokers' rounding to two places (golden file pins it) and "
               "cumulus' dropped payment rows are known findings, printed as KNOWN-FINDING lines.")
 
